@@ -272,6 +272,7 @@ theorem stepOp_inv (gens : Gens) (s : Sys) (idx t : Nat) (tk : Task) (op : Op) (
     | nil => exact hi
     | cons f fs => exact hi.same _ rfl
   | probe => exact hi
+  | caught => exact hi
   | spawn j =>
     simp only [stepOp]
     cases lookup s.tasks j with
@@ -522,9 +523,10 @@ theorem closeEntries_snoc (init : List Entry) (last : Entry) :
 
 /-! ## a consumer session: task `t` consumes stream `h` and does nothing else to its context -/
 
-/-- `t` only calls `__anext__` / `aclose` on `h` or probes; the other tasks do anything but touch `h` -/
+/-- `t` only calls `__anext__` / `aclose` on `h`, probes, or handles a cancellation request; the other tasks do
+anything but touch `h` -/
 def SessionLabel (t h : Nat) (l : Label) : Prop :=
-  (l.task = t → l.op = .next h ∨ l.op = .close h ∨ l.op = .probe) ∧
+  (l.task = t → l.op = .next h ∨ l.op = .close h ∨ l.op = .probe ∨ l.op = .caught) ∧
   (l.task ≠ t → l.op ≠ .next h ∧ l.op ≠ .close h ∧ l.op ≠ .abandon h ∧ ∀ g, l.op ≠ .mk h g)
 
 def Session (s : Sys) (t h : Nat) (c0 : Ctx) : Prop :=
@@ -550,6 +552,7 @@ theorem stepOp_other (gens : Gens) (s : Sys) (idx t' t h : Nat) (tk' : Task) (op
     simp only [stepOp]
     cases tk'.frames <;> simp [lookup_update_other _ _ _ _ hne]
   | probe => simp [stepOp]
+  | caught => simp [stepOp]
   | spawn j =>
     simp only [stepOp]
     cases hj : lookup s.tasks j with
@@ -685,7 +688,7 @@ theorem session_step (gens : Gens) (s : Sys) (idx t h : Nat) (c0 : Ctx) (l : Lab
   by_cases htt : t' = t
   · subst htt
     simp only [htk]
-    rcases hl.1 rfl with hop | hop | hop
+    rcases hl.1 rfl with hop | hop | hop | hop
     · -- __anext__
       simp only at hop; subst hop
       simp only [stepOp, hst]
@@ -725,6 +728,9 @@ theorem session_step (gens : Gens) (s : Sys) (idx t h : Nat) (c0 : Ctx) (l : Lab
         simp only [framesOf, List.map_append, List.map_cons, List.map_nil, hlf]
         rw [restoreAll_lastAscope _ n g sv m tk.ctx tk.ctx, restoreAll_lastAscope _ n g sv m tk.ctx tk.ctx]
     · -- probe
+      simp only at hop; subst hop
+      exact ⟨tk, st, htk, hst, hinv⟩
+    · -- a caught cancellation
       simp only at hop; subst hop
       exact ⟨tk, st, htk, hst, hinv⟩
   · cases htk' : lookup s.tasks t' with
@@ -1005,6 +1011,7 @@ theorem stepOp_mono (gens : Gens) (s : Sys) (idx t : Nat) (tk : Task) (op : Op) 
     | nil => exact Mono.refl _
     | cons f fs => exact exitFrame_mono f tk.ctx s.world
   | probe => exact Mono.refl _
+  | caught => exact Mono.refl _
   | spawn j =>
     simp only [stepOp]
     cases lookup s.tasks j <;> exact Mono.refl _
@@ -1071,6 +1078,7 @@ theorem stepOp_nodeInv (gens : Gens) (s : Sys) (idx t : Nat) (tk : Task) (op : O
     | nil => simp only [hf] at hl; exact Or.inl hl
     | cons f fs => simp only [hf] at hl; exact Or.inl hl
   | probe => exact Or.inl hl
+  | caught => exact Or.inl hl
   | spawn j =>
     simp only [stepOp] at hl
     cases hj : lookup s.tasks j with
